@@ -90,7 +90,7 @@ def run(ctx):
     n = ctx.budget(700, 15000)
     opts = {"fk": False}
     projects = [proj.gen_project(rng, opts) for _ in range(n)]
-    generic_pipeline_check(ctx, [("I18nVerif.Theorems.C07", "C07_")], projects, make_oracle(False), "C07")
+    generic_pipeline_check(ctx, [("I18nVerif.Theorems.C07", "C07_"), ("I18nVerif.Theorems.C07Pipeline", "C07_")], projects, make_oracle(False), "C07")
     projects2 = [proj.gen_project(rng, opts) for _ in range(n // 2)]
     generic_pipeline_check(ctx, [], projects2, make_oracle(True), "C07-suppress", suppress=True)
     ctx.assumptions += PARSER_ASSUMPTIONS
